@@ -590,8 +590,13 @@ json_print_any_content(struct jsonpr_ctx *pctx, struct lyd_node_any *any)
 
     assert(any->schema->nodetype & LYD_NODE_ANY);
 
-    if ((any->schema->nodetype == LYS_ANYDATA) && (any->value_type != LYD_ANYDATA_DATATREE)) {
+    if ((any->schema->nodetype == LYS_ANYDATA) && (any->value_type != LYD_ANYDATA_DATATREE) && any->value.str) {
         LOGINT_RET(pctx->ctx);
+    }
+    if ((any->value_type == LYD_ANYDATA_LYB) && !any->value.mem) {
+        /* no content (the value was freed by lyd_any_copy_value()) */
+        ly_print_(pctx->out, (any->schema->nodetype == LYS_ANYXML) ? "null" : "{}");
+        return LY_SUCCESS;
     }
     if (any->value_type == LYD_ANYDATA_LYB) {
         uint32_t parser_options = LYD_PARSE_ONLY | LYD_PARSE_OPAQ | LYD_PARSE_STRICT;
